@@ -42,7 +42,7 @@ ManyOk(e) ==
   LET par == Lookup(doc, IdPath(e.path)) IN
   \A j \in 1..Len(e.res) :
     LET r == e.res[j] IN
-    IF par.st # "found" THEN TRUE       \* parent absent: covered by Read events
+    IF par.st # "found" \/ (par.i8 /\ r.st = "noparent") THEN TRUE       \* parent absent: covered by Read events
     ELSE IF r.st # "ok" THEN
          MM([tag |-> "MM", i |-> l, ev |-> "Many", api |-> r.api, label |-> "Call", exp |-> "ok", got |-> r.st, detail |-> "st"])
     ELSE \A k \in 1..Len(e.items) :
